@@ -57,12 +57,22 @@ def c_cfg_args(d):
     return f"{blocks} {d['entry']} {d['exit']} {b(d['exit_reachable'])} {fin}"
 
 
+def c_lcfg(d):
+    blocks = lst([f"mkAB {lst([c_tree(t) for t in bl['in']])} {lst([c_stmt(s) for s in bl['stmts']])} "
+                  f"{lst([str(x) for x in bl['succ']])}" for bl in d["blocks"]])
+    fin = lst([f"({i[0]}, {b(i[1])}, {c_tree(i[2])})" for i in d["inputs"]])
+    return f"(mkLC (map flatten_block {blocks}) {d['entry']} {d['exit']} {b(d['exit_reachable'])} {fin})"
+
+
 def coq_case(d, fx=True, sched="[]"):
-    return f"Eval vm_compute in (enc_verdict (check_ast {b(fx)} {c_cfg_args(d)} {sched}))."
+    # verdict of the model, followed by the (decidable) hypotheses of the theorems on this CFG
+    return (f"Eval vm_compute in (let c := {c_lcfg(d)} in "
+            f"(enc_verdict (check_cfg {b(fx)} c {sched}), hyps_code c)).")
 
 
 PRELUDE = ("From Coq Require Import List Bool Arith.\nFrom V.C09 Require Import Analysis.\n"
-           "From V.C06 Require Import Linearity.\nImport ListNotations.\n")
+           "From V.C06 Require Import Linearity Token Hyps.\nImport ListNotations.\n")
+HYPS = ["uniform", "wf_shape", "h_exit", "all_reached", "events_wf", "io_ok", "exit_reachable"]
 
 
 def eval_model(ctx, tag, dumps, fx=True, scheds=None, chunk=250):
@@ -79,7 +89,12 @@ def eval_model(ctx, tag, dumps, fx=True, scheds=None, chunk=250):
         res += vals
     if len(res) != len(dumps):
         raise RuntimeError(f"model evaluation returned {len(res)} values for {len(dumps)} cases")
-    return [decode(v) for v in res]
+    out = []
+    for v, h in res:
+        m = decode(list(v))
+        m["hyps"] = dict(zip(HYPS, [bool(x) for x in h]))
+        out.append(m)
+    return out
 
 
 def decode(v):
